@@ -184,7 +184,7 @@ def read_task(prop, cfg, tier, seed):
             ctx, E, vars_, entry="vmdk_sparse", params=lambda mo: dict(via=via, has_parent=has_parent, sector_offset=mi(mo, so)),
             call=lambda mo: (["read_sectors", mi(mo, so) + mi(mo, sector), mi(mo, count)] if via == "disk" else
                              ["_read", mi(mo, sector) * S, mi(mo, count) * S]),
-            total=lambda mo: mi(mo, explen), g0=lambda mo: mi(mo, sector) * S, spec_at=spec_at, unit=gs * S, rng=rng, j=j,
+            total=lambda mo: mi(mo, explen), g0=lambda mo: mi(mo, sector) * S, spec_at=spec_at, unit=gs * S, rng=rng, maxlen=(lambda mo: mi(mo, count * S)) if cfg.get("tail") else None, j=j,
             opaque=("parent",) if has_parent else (), sizes=dict(img=lambda mo: mi(mo, fsize)),
             prefer=[cap <= 1 << 34, count * S <= 16 << 20] + ([vars_["gd_sectors"] <= 4096] if kind == "sesparse" else []),
             post_files=post_files)
@@ -211,7 +211,7 @@ def read_task(prop, cfg, tier, seed):
                     a = core.SymInt(a2, ai2, 0, 1 << 70)
                     sc.extra.append(core.sym_or(a + n2 <= off, a >= off + ln))
         sv = gbyte(sector * S + j, mem, par, fsize)
-        bad = byte_obligation(res, j, explen, sv, extra=[core.sym_not(size_ok)])
+        bad = byte_obligation(res, j, explen, sv, extra=[core.sym_not(size_ok)], maxlen=count * S if cfg.get("tail") else None)
         if ctx.obligation(bad, "read differs from the guest-visible content"):
             ctx.witness()
 
